@@ -10,7 +10,7 @@ REJECT = (Exception,)
 def build(specs, tier, rng, rep, cap=None, hw=False, dense_bias=False, prefix=""):
     items = []
     for k, sp in enumerate(specs):
-        extra = {k2: v for k2, v in sp.items() if k2 not in ("yaml", "configs", "family")}
+        extra = {k2: v for k2, v in sp.items() if k2 not in ("yaml", "configs", "family", "text")}
         try:
             e, m = execpipe.make_entry(sp["yaml"], sp["configs"], "%s%s#%d" % (prefix, sp["family"], k), tier=tier, rng=rng,
                                        cap=sp.get("cap", cap), hw=sp.get("hw", hw), dense_bias=sp.get("dense_bias", dense_bias),
